@@ -21,7 +21,7 @@ Scen(q) == LET S == Scenarios(q.nw, q.nr, q.r)
 
 Step(q) ==
   CASE q.k = "scen" -> [scenarios |-> Scen(q)]
-    [] q.k = "hist" -> [histories |-> SetToSeq(Histories), grid_histories |-> GridHistories,
+    [] q.k = "hist" -> [histories |-> SetToSeq(Histories), grid_histories |-> GridHistories, kernel_units |-> KernelUnits,
                       row_orders |-> [i \in 1..Len(RowOrders) |-> [order |-> RowOrders[i], perm |-> RowPerm(RowOrders[i], q.nr)]], file_histories |-> [i \in 1..Len(FileHistories) |-> [j \in 1..Len(FileHistories[i]) |->
                                                    [state |-> FileHistories[i][j], judged |-> FileStepJudged(FileHistories[i][j])]]]]
     [] q.k = "judge" -> Judge(q)
